@@ -4,8 +4,9 @@ CONSTANTS
   MaxVar = 1
   NCtx = 2
   Nesting = FALSE
+  AtomicLaunch = TRUE
   HookKinds = {"none"}
 SPECIFICATION Spec
-INVARIANTS CommandsAfterDependencies StopsAtFailure FinalOK RunOnlyWhileStageRunning UpBeforeUse DownAfterAll OneUpAtATime NothingRunsAtReturn
+INVARIANTS CommandsAfterDependencies StopsAtFailure FinalOK RunOnlyWhileStageRunning UpBeforeUse DownAfterAll OneUpAtATime NothingRunsAtReturn NoDoubleLaunch
 PROPERTY Terminates
 CHECK_DEADLOCK FALSE
